@@ -7,7 +7,8 @@ From Coq Require Import List Arith NArith ZArith Bool String.
 From Coq.Strings Require Import Byte.
 From Peppi Require Import Base.Bytes Base.Outcome Base.Stream Layout.Syntax Gen.Funs Gen.Tables Layout.Sem Layout.Rows Layout.Shapes
   Layout.RowsTheory Model.Ubjson Model.Start Model.Parse Model.Reader Model.Writer Model.Recorder
-  Gen.WriterSizes Proofs.TableFacts Proofs.ReadProof Proofs.WriteProof Proofs.Corollaries Proofs.WriterLayout Proofs.Examples.
+  Gen.WriterSizes Gen.FrameWrite Gen.Splitter Proofs.TableFacts Proofs.ReadProof Proofs.WriteProof Proofs.Corollaries Proofs.WriterLayout
+  Proofs.FrameWriteLayout Proofs.SplitterLayout Proofs.Examples.
 Import ListNotations.
 
 (* reader half, for EVERY well-formed replay: any version up to the maximum, any occupied ports, any frame
@@ -51,6 +52,15 @@ Proof. exact size_fn_row_size_frames. Qed.
 Theorem C01_payload_sizes_from_source : forall g, payload_sizes g = payload_sizes_of_tbl payload_sizes_src_tbl g.
 Proof. exact payload_sizes_from_source. Qed.
 
+(* the canonical order in which a frame is written (Frame Start, every port's pre events, the frame's items, every port's
+   post events, Frame End), the version gates of the groups, the event headers (code, frame id, port, follower flag) and the
+   gecko splitter blocks are those regenerated from src/frame/immutable/slippi.rs and src/io/slippi/ser.rs on this run *)
+Theorem C01_frame_write_from_source : forall v fr idx id,
+  write_frame v fr idx id = write_frame_tbl frame_write_steps v fr idx id.
+Proof. exact write_frame_from_source. Qed.
+Theorem C01_gecko_blocks_from_source : forall fuel pos c, gecko_blocks fuel pos c = gecko_blocks_tbl gecko_write_steps fuel pos c.
+Proof. exact gecko_blocks_from_source. Qed.
+
 (* non-vacuity: concrete well-formed replays in each framing regime (rollback, absent characters, items, gecko
    blocks, doubled / missing Game End, metadata / none) *)
 Theorem C01_nonvacuous :
@@ -67,3 +77,5 @@ Print Assumptions C01_write_row_identity.
 Print Assumptions C01_size_fn.
 Print Assumptions C01_payload_sizes_from_source.
 Print Assumptions C01_nonvacuous.
+Print Assumptions C01_frame_write_from_source.
+Print Assumptions C01_gecko_blocks_from_source.
